@@ -324,7 +324,13 @@ def delete(filething, delete_v1=True, delete_v2=True):
     f = filething.fileobj
 
     if delete_v1:
-        tag, offset = find_id3v1(f)
+        # an ID3v1 tag can't lie inside an ID3v2 tag at the start of the file
+        v2_end = 0
+        f.seek(0, 0)
+        idata = f.read(10)
+        if len(idata) == 10 and idata[:3] == b'ID3':
+            v2_end = BitPaddedInt(idata[6:10]) + 10
+        tag, offset = find_id3v1(f, start=v2_end)
         if tag is not None:
             f.seek(offset, 2)
             f.truncate()
